@@ -201,6 +201,11 @@ embedded_pairing_core_arch_x86_64_bigint_768_square:
     adc %rbx, %rbx
     adc %r9, %r9
 
+    # Stash the carry out of the doubling in the (not yet written) top word
+    movq $0, %rax
+    adc $0, %rax
+    movq %rax, 88(%rdi)
+
     # Add diagonal (r8 stores the carry)
     movq (%rsi), %rax
     mulq %rax
@@ -232,7 +237,7 @@ embedded_pairing_core_arch_x86_64_bigint_768_square:
     adc $0, %rdx
     add %rax, %r9
     movq %r9, 80(%rdi)
-    adc $0, %rdx
+    adc 88(%rdi), %rdx
     movq %rdx, 88(%rdi)
 
     pop %r15
